@@ -738,7 +738,8 @@ impl DrawExecutor {
                 p.push(points[i + x * 2 + 1] + y0);
             }
             self.draw_polyline(&p);
-            i += num_points;
+            // two coordinates per point (stepping by the point count read a coordinate as the next count: index out of range for the diagonal cross)
+            i += num_points * 2;
         }
         self.line_type = old_type;
         self.fill_color = old_color;
